@@ -4,7 +4,7 @@ Abstract terms are generated in Python together with a *representation* for ever
 node (string literal / partial string / run-time built list cells / a `'.'/2` structure cell /
 a misaligned string tail / a multi-segment string).  Each case is rendered twice: as Prolog
 text that builds the terms on the heap of the real system and runs compare/3, ==, \\==, @<,
-@=<, @>, @>= (call and execute forms), sort/2, keysort/2 on them; and in the harness' canonical
+@=<, @>, @>= (call and execute forms, counted and Default* instruction variants), sort/2, keysort/2 on them; and in the harness' canonical
 term syntax for the Lean model driver (drv_C13), where all representations collapse into the
 one term they denote.  Variables are ordered as the implementation itself orders them in the
 same query (their pairwise compare/3 answers are read back and must form a strict total order);
@@ -268,7 +268,25 @@ c13_x(A,B,x(E,N,L,LE,G,GE)) :- c13_t(c13_eq(A,B),E), c13_t(c13_ne(A,B),N), c13_t
 c13_c(A,B,c(E,N,L,LE,G,GE)) :- ( A == B -> E = t ; E = f ), ( A \== B -> N = t ; N = f ),
     ( A @< B -> L = t ; L = f ), ( A @=< B -> LE = t ; LE = f ), ( A @> B -> G = t ; G = f ),
     ( A @>= B -> GE = t ; GE = f ).
-c13_r(A,B,r(O,X,C)) :- compare(O,A,B), c13_x(A,B,X), c13_c(A,B,C).
+c13_r(A,B,r(O,X,C,DX,DC)) :- compare(O,A,B), c13_x(A,B,X), c13_c(A,B,C), c13_dx(A,B,DX), c13_dc(A,B,DC).
+:- non_counted_backtracking c13_deq/2.
+:- non_counted_backtracking c13_dne/2.
+:- non_counted_backtracking c13_dlt/2.
+:- non_counted_backtracking c13_dle/2.
+:- non_counted_backtracking c13_dgt/2.
+:- non_counted_backtracking c13_dge/2.
+:- non_counted_backtracking c13_dc/3.
+c13_deq(A,B) :- A == B.
+c13_dne(A,B) :- A \== B.
+c13_dlt(A,B) :- A @< B.
+c13_dle(A,B) :- A @=< B.
+c13_dgt(A,B) :- A @> B.
+c13_dge(A,B) :- A @>= B.
+c13_dx(A,B,x(E,N,L,LE,G,GE)) :- c13_t(c13_deq(A,B),E), c13_t(c13_dne(A,B),N), c13_t(c13_dlt(A,B),L),
+    c13_t(c13_dle(A,B),LE), c13_t(c13_dgt(A,B),G), c13_t(c13_dge(A,B),GE).
+c13_dc(A,B,c(E,N,L,LE,G,GE)) :- ( A == B -> E = t ; E = f ), ( A \== B -> N = t ; N = f ),
+    ( A @< B -> L = t ; L = f ), ( A @=< B -> LE = t ; LE = f ), ( A @> B -> G = t ; G = f ),
+    ( A @>= B -> GE = t ; GE = f ).
 c13_all([], _, []).
 c13_all([A|As], Ts, Rs) :- c13_row(Ts, A, Rs, Rs1), c13_all(As, Ts, Rs1).
 c13_row([], _, Rs, Rs).
@@ -277,9 +295,9 @@ c13_vars([], []).
 c13_vars([V|Vs], Os) :- c13_vrow(Vs, V, Os, Os1), c13_vars(Vs, Os1).
 c13_vrow([], _, Os, Os).
 c13_vrow([W|Ws], V, [O|Os0], Os) :- compare(O,V,W), c13_vrow(Ws, V, Os0, Os).
-c13_f3(S1, r([], [r(O1,X1,C1), r(O2,X2,C2)], [skip,skip], [])) :-
+c13_f3(S1, r([], [R1, R2], [skip,skip], [])) :-
     c13_lis(S1, [], L2), c13_lis(S1, [z], L1), A = f(S1,L1), B = f(L2,L2),
-    c13_r(A,B,r(O1,X1,C1)), c13_r(B,A,r(O2,X2,C2)).
+    c13_r(A,B,R1), c13_r(B,A,R2).
 c13_vals([], []).
 c13_vals([_-V|Ps], [V|Vs]) :- c13_vals(Ps, Vs).
 """
@@ -539,6 +557,19 @@ def mutate(rng, t, nvars, depth=0):
             return ("chs", text, gen_tail(rng, nvars), rng.choice(CMODES))
         return ("lst", [("atom", c) for c in text], tail, rng.choice(LMODES))
     return t
+
+
+NUM_V = [0, 1, 2, 3, 10, 2 ** 31, 2 ** 52, 2 ** 53 - 1, 2 ** 53, 2 ** 53 + 1, 2 ** 54, 2 ** 54 + 1, 2 ** 55 - 2,
+         2 ** 55 - 1, 2 ** 55, 2 ** 55 + 1, 2 ** 56, 2 ** 62, 2 ** 63 - 1, 2 ** 63, 2 ** 64, 2 ** 64 + 1, 10 ** 20,
+         2 ** 100, 2 ** 200 + 1]
+
+
+def mk_rat(n, d):
+    """the term for n/d as the system holds it: lowest terms, an integer when d divides n"""
+    from math import gcd
+    g = gcd(n, d)
+    n, d = n // g, d // g
+    return ("int", n) if d == 1 else ("rat", n, d)
 
 
 def gen_group(rng, n, nvars):
@@ -910,21 +941,26 @@ def flags_for(o):
 
 
 def parse_r(s):
-    """'r'('<','x'(..6..),'c'(..6..)) -> (ord, xflags, cflags)"""
+    """'r'('<','x'(..6..),'c'(..6..),'x'(..6..),'c'(..6..)) -> (ord, xflags, cflags): the six
+    operators in execute / call form, inference-counted instructions; then the same through the
+    Default* instruction variants (predicates declared non_counted_backtracking). The two execute
+    answers and the two call answers are returned joined by '|' when they differ."""
     if not s.startswith("'r'(") or not s.endswith(")"):
         return None
     parts = split_top(s[4:-1])
-    if len(parts) != 3 or parts[0] not in ORD:
+    if len(parts) != 5 or parts[0] not in ORD:
         return None
     fl = []
-    for p, tag in ((parts[1], "'x'("), (parts[2], "'c'(")):
+    for p, tag in ((parts[1], "'x'("), (parts[2], "'c'("), (parts[3], "'x'("), (parts[4], "'c'(")):
         if not p.startswith(tag):
             return None
         xs = split_top(p[len(tag):-1])
         if len(xs) != 6 or any(x not in ("'t'", "'f'") for x in xs):
             return None
         fl.append("".join(x[1] for x in xs))
-    return ORD[parts[0]], fl[0], fl[1]
+    ex = fl[0] if fl[0] == fl[2] else fl[0] + "|default:" + fl[2]
+    ca = fl[1] if fl[1] == fl[3] else fl[1] + "|default:" + fl[3]
+    return ORD[parts[0]], ex, ca
 
 
 def swap(o):
@@ -1018,6 +1054,7 @@ def generate(ctx):
     n_sort = 150 if quick else 2500
     n_seg = 250 if quick else 4000
     f2_budget = 6 if quick else 20
+    n_num = 150 if quick else 3000
     k = 0
     for _ in range(n_pair):
         nv = rng.choice([0, 0, 0, 1, 2, 3])
@@ -1036,6 +1073,21 @@ def generate(ctx):
         sc = make_case("s%d" % k, rng.choice(["sort", "ksort"]), ts, rng, {"family": "sort"})
         if sc is not None:
             cases.append(sc)
+        k += 1
+    # numeric boundaries: an integer v (small, around 2^53..2^56 where doubles stop being exact and
+    # where fixnums end, bignums) against rationals within 1/d of it and against v-1, v+1; a
+    # comparison that goes through floating point or truncation fails exactly here
+    for _ in range(n_num):
+        v = rng.choice(NUM_V) + rng.choice([0, 0, 1, -1])
+        if rng.random() < 0.5:
+            v = -v
+        d = rng.choice([2, 2, 3, 7, 10 ** 20, 2 ** 64])
+        e = rng.choice([1, -1])
+        ts = [("int", v), mk_rat(v * d + e, d), rng.choice([("int", v + e), mk_rat(v * d + 2 * e, d), mk_rat(v * d - e, d)])]
+        rng.shuffle(ts)
+        if rng.random() < 0.3:
+            ts = [("cmp", "f", [t]) for t in ts]
+        cases.append(make_case("n%d" % k, "cmp", ts, rng, {"family": "num"}))
         k += 1
     f2_used = 0
     made = 0
@@ -1075,8 +1127,13 @@ def generate(ctx):
 def needs_retry(ans):
     """the answer says nothing about the case: the helper program was lost (a panic or crash
     earlier in the worker discards the machine) or the watchdog fired (loaded host)."""
-    return ans in ("missing", "timeout") or ans.startswith("skipped(") or \
-        ("existence_error" in ans and "c13_" in ans)
+    # a panic / abort is re-run in isolation too: only one that happens again on a fresh process
+    # with nothing but this case is attributed to the case's input
+    return ans in ("missing", "timeout") or ans.startswith(("skipped(", "panic(", "abort(")) or \
+        ("existence_error" in ans and "c13_" in ans) or "file_load_error" in ans
+
+
+RETRY_STATS = {}
 
 
 def run_impl(cases):
@@ -1103,13 +1160,21 @@ def run_impl(cases):
             if not a.startswith("{"):
                 bad[a[:60]] = bad.get(a[:60], 0) + 1
         print("first pass: %d to retry; non-answers: %r" % (len(again), bad))
-    for attempt in (1, 2):
+    # retries: 2 workers with a 30 s watchdog, then one by one with a 60 s watchdog (a loaded host
+    # makes trivial goals hit the default 10 s watchdog); the last stage is budgeted, what is
+    # left over is counted as infrastructure_skipped, never as a finding
+    for attempt, workers, ms, budget in ((1, 2, 30000, 400), (2, 1, 60000, 12)):
         if not again:
             break
-        with ThreadPoolExecutor(max_workers=jobs if attempt == 1 else 2) as ex:
-            for r in ex.map(lambda c: core.run_impl([load("%s.l%d" % (c["id"], attempt))] + c["impl"]), again):
+        todo, over = again[:budget], again[budget:]
+        for c in over:
+            res[c["id"]] = "skipped(load)"
+        with ThreadPoolExecutor(max_workers=workers) as ex:
+            for r in ex.map(lambda c: core.run_impl([load("%s.l%d" % (c["id"], attempt))] + c["impl"],
+                                                    env={"SV_TIMEOUT_MS": str(ms)}), todo):
                 res.update(r)
-        again = [c for c in again if needs_retry(res.get(c["id"], "missing"))]
+        again = [c for c in todo if needs_retry(res.get(c["id"], "missing"))]
+        RETRY_STATS["retried_stage%d" % attempt] = len(todo)
     return res
 
 
@@ -1202,7 +1267,7 @@ def run(ctx):
                                       if x[0] == "seg" and y[0] == "seg")
         if rep is not None:
             print("replay %s\n  impl : %s" % (c["prolog"], ans))
-        if b is None and needs_retry(ans) and ans != "timeout":
+        if b is None and needs_retry(ans) and ans != "timeout" and not ans.startswith(("panic(", "abort(")):
             stats["infrastructure_skipped"] += 1     # helper program could not be (re)loaded
             continue
         if b is None or "RS" not in (b or {}):
@@ -1378,7 +1443,7 @@ def run(ctx):
                                             "sort" if c["kind"] == "sort" else "keysort", got[:300], (want or "")[:300]), c))
         if ok:
             agree += 1
-            if len(samples) < 6 and c["id"][0] in "ptsg" and len(c["prolog"]) < 400:
+            if len(samples) < 6 and c["id"][0] in "ptsgn" and len(c["prolog"]) < 400:
                 samples.append(c["prolog"])
 
     return {
@@ -1393,6 +1458,7 @@ def run(ctx):
         "render_mismatch_discarded": stats["render_mismatch"],
         "cases_without_answer": stats["impl_not_ok"],
         "infrastructure_skipped": stats["infrastructure_skipped"],
+        "retried_after_timeout_or_lost_machine": dict(RETRY_STATS),
         "cases_with_variables": stats["var_cases"],
         "exhaustive": False,
         "findings": findings,
